@@ -6,7 +6,7 @@ from common import *
 from harness.shells import *
 
 LEVEL = 'proof'
-RULE = ('store basis/versions (seed-chosen sample in quick, all in thorough) x all 2^6 combinations of the contraction options, plus diffuse/steep '
+RULE = ('store basis/versions (seed-chosen sample: 22 in quick, 300 in thorough, the corpus first) x all 2^6 combinations of the contraction options, plus diffuse/steep '
         'augmentation counts on a third of them, plus element subsets; generated dictionaries pushed through the manip functions directly. '
         'One case = one get_basis call; non-trivial = distinct result dictionary (by content hash) that differs from the plain basis.')
 ASSUMPTIONS = ['with remove_free_primitives the rules are applied to the elements that keep at least one function (as the property states)']
@@ -288,7 +288,7 @@ def run(ctx):
     bse = import_bse()
     R = Result('C08')
     rng = ctx.rng
-    pairs = sample_pairs(ctx, ctx.n(22, 10 ** 6))
+    pairs = sample_pairs(ctx, ctx.n(22, 300))
     items = []
     for (n, v) in pairs:
         cs = combos_for(rng, True)
@@ -304,7 +304,7 @@ def run(ctx):
     for i in range(0, len(items), 30):
         evaluate(ctx, R, pmap(work, items[i:i + 30]), 'api.get_basis')
     gitems = []
-    for i in range(ctx.n(60, 1500)):
+    for i in range(ctx.n(60, 600)):
         gitems.append(('gen%d' % i, genbasis.gen_basis(rng), [c for c in combos_for(rng, False, 0)] + [dict(direct=f) for f in ('make_general', 'uncontract_general', 'optimize_general', 'prune_basis')]))
     for i in range(0, len(gitems), 60):
         evaluate(ctx, R, pmap(gen_work, gitems[i:i + 60]), 'manip.pipeline')
